@@ -66,7 +66,7 @@ theorem foldlM_takeRest (ext : Ext)
 still stands for the struct of the declared fields. -/
 theorem runRows_builtFor (ext : Ext) (fields : List Field) (rows : List SVal) (root : B)
     (hpush : ∀ (x : SVal) (b b' : B), push ext b x = .ok b' → takeRest b' = takeRest b)
-    (hm : ∀ f ∈ fields, Map2F f) (h : runRows ext fields rows = .ok root) :
+    (h : runRows ext fields rows = .ok root) :
     BuiltFor (.struct (Fields.ofList fields)) false root := by
   simp only [runRows, bind, Except.bind] at h
   cases hr : newRoot fields with
@@ -74,7 +74,7 @@ theorem runRows_builtFor (ext : Ext) (fields : List Field) (rows : List SVal) (r
   | ok r0 =>
     rw [hr] at h
     exact BuiltFor_of_takeRest_eq r0 root _ _ (foldlM_takeRest ext hpush rows r0 root h)
-      (newRoot_builtFor fields r0 hm hr)
+      (newRoot_builtFor fields r0 hr)
 
 /-- bridge to the strict dictionary clause of agent-refine's `WFB` (`k = .int j → 0 ≤ j ∧ j.toNat < |index|`): together
 with "every key is null or an integer" it is the dictionary clause of `Faithful` -/
